@@ -45,7 +45,47 @@ class Prop:
         hist[k] = hist.get(k, 0) + 1
 
     def shrink(self, failing):
-        return failing
+        """Greedy reduction of operation lists: for a failing line of the form `<kind> <arg> op;op;...` whose failure is a
+        disagreement between the real code and the model (= the specification, by theorem), operations are dropped one at a time
+        as long as the two still disagree.  At most the first three failing inputs are reduced, with a bounded number of runs;
+        the original line is kept in `unreduced`."""
+        out = []
+        for k, f in enumerate(failing):
+            c = f.get("case", "")
+            t = c.split(" ")
+            if k >= 3 or len(t) != 3 or ";" not in t[2] or not any(x in f for x in ("model(=spec by theorem)",)) \
+                    or not (os.path.exists(core.HARNESS_BIN) and os.path.exists(core.DRIVER)):
+                out.append(f)
+                continue
+            ops = t[2].split(";")
+            runs = 0
+
+            def bad(cand):
+                line = f"{t[0]} {t[1]} {';'.join(cand)}"
+                i = core.run_cases(core.HARNESS_BIN, [line])[0]
+                m = core.run_cases(core.DRIVER, [line])[0]
+                return (not self.compare(line, i, m)), line, i, m
+
+            changed = True
+            best = None
+            while changed and runs < 80 and len(ops) > 1:
+                changed = False
+                for j in range(len(ops) - 1, -1, -1):
+                    if len(ops) <= 1 or runs >= 80:
+                        break
+                    cand = ops[:j] + ops[j + 1:]
+                    runs += 1
+                    b, line, i, m = bad(cand)
+                    if b:
+                        ops, best, changed = cand, (line, i, m), True
+            if best:
+                g = dict(f)
+                g["unreduced"] = c[:2000]
+                g["case"], g["impl"], g["model(=spec by theorem)"] = best
+                out.append(g)
+            else:
+                out.append(f)
+        return out
 
     def extra(self, tier, cases, impl_out, model_out, hist):
         """Oracle evaluated on the implementation's outputs alone; returns a list of failing dicts ({"case": ..., ...})."""
